@@ -13,6 +13,7 @@ import (
 
 	"github.com/consensys/gnark-crypto/ecc"
 	"github.com/consensys/gnark-crypto/ecc/bn254"
+	"github.com/consensys/gnark-crypto/ecc/bn254/fp"
 	"github.com/consensys/gnark/backend/groth16"
 	"verif/harness/ev"
 	"verif/harness/ref"
@@ -213,6 +214,38 @@ func c10Body(c *ev.Ctx) {
 		p1.AddAssign(&g1j)
 		p2.AddAssign(&g2j)
 	}
+	// boundary coordinates: values in [r, p) (r = scalar-field order < p = base-field order) are
+	// legitimate coordinates; G1 has cofactor 1, so every curve point with such an x is usable
+	{
+		P := fp.Modulus()
+		var three fp.Element
+		three.SetUint64(3)
+		addPoint := func(a bn254.G1Affine, label string) {
+			if a.IsOnCurve() && a.IsInSubGroup() && !a.IsInfinity() {
+				rb := a.RawBytes()
+				g1reps[label] = rep{append([]byte{}, rb[:]...), label}
+			}
+		}
+		for bi, base := range []*big.Int{new(big.Int).Sub(P, big.NewInt(1)), new(big.Int).Set(ref.R), new(big.Int).Rsh(new(big.Int).Add(P, ref.R), 1)} {
+			for j := int64(0); j < 40; j++ {
+				xv := new(big.Int).Sub(base, big.NewInt(j))
+				if base.Cmp(ref.R) == 0 {
+					xv = new(big.Int).Add(base, big.NewInt(j))
+				}
+				var x, y2, y fp.Element
+				x.SetBigInt(xv)
+				y2.Square(&x).Mul(&y2, &x).Add(&y2, &three)
+				if y.Sqrt(&y2) == nil {
+					continue
+				}
+				addPoint(bn254.G1Affine{X: x, Y: y}, fmt.Sprintf("x>=r#%d", bi))
+				break
+			}
+		}
+		var neg bn254.G1Affine
+		neg.Neg(&g1)
+		addPoint(neg, "y=p-2") // -G1 = (1, p-2): y in [r, p)
+	}
 	var cases []c10Case
 	slotShort := [8]bool{}
 	for ka, a := range g1reps {
@@ -221,7 +254,7 @@ func c10Body(c *ev.Ctx) {
 				raw := append(append(append([]byte{}, a.raw...), b.raw...), cc.raw...)
 				cases = append(cases, c10Case{Kind: "synthetic", Raw: hex.EncodeToString(raw)})
 				all := ka + kb + kc
-				for i := 0; i < 8; i++ {
+				for i := 0; i < 8 && i < len(all) && len(ka) == 2 && len(kc) == 2; i++ {
 					if all[i] != 'L' {
 						slotShort[i] = true
 					}
@@ -366,7 +399,7 @@ func c10Body(c *ev.Ctx) {
 	c.Set("evaluations", evals)
 	c.Set("distinct_nontrivial", int64(len(classes)))
 	c.Set("exhaustive", true)
-	c.Set("rule", "synthetic proofs = all combinations (A,B,C) of representative curve points, one per coordinate-length class (32 bytes / 31 bytes / <=30 bytes per coordinate) found among k*G1, k*G2 for k<=N; real proofs from a (1,1) system until coordinates with leading zero bytes occurred; oracle: JSON carries the eight coordinates read from gnark's struct fields in EVM order as 0x-hex, decode(encode(p)) == p field by field, decoded real proofs verify; distinct = classes of short-coordinate patterns")
+	c.Set("rule", "synthetic proofs = all combinations (A,B,C) of representative curve points, one per coordinate-length class (32 bytes / 31 bytes / <=30 bytes per coordinate) found among k*G1, k*G2 for k<=N, plus G1 points with a coordinate in [r, p) (x chosen, y solved; -G1); real proofs from a (1,1) system until coordinates with leading zero bytes occurred; oracle: JSON carries the eight coordinates read from gnark's struct fields in EVM order as 0x-hex, decode(encode(p)) == p field by field, decoded real proofs verify; distinct = classes of short-coordinate patterns")
 	c.Assume("gnark-crypto's raw point encoding and subgroup checks are trusted to materialise the synthetic proofs")
 }
 
